@@ -28,10 +28,50 @@ Full = _real_queue.Full
 BrokenBarrierError = _real_threading.BrokenBarrierError
 
 
+class _NullThread:
+    role = '-'
+    tid = -1
+
+
+class _NullSim:
+    """What a simulated primitive sees when it is used outside a simulated thread (the controller
+    thread, or a process with no run in progress): since the `threading` / `queue` module
+    attributes are replaced process-wide (seams.install), library code may construct and use the
+    simulated primitives there.  Single-threaded semantics: an operation that is enabled is
+    performed at once; one that would block is a harness error."""
+    now = 0.0
+    active = False
+    record_on = False
+    log = ()
+    _me = _NullThread()
+
+    def yield_(self, kind, obj='', enabled=None, detail=None):
+        if enabled is not None and not enabled():
+            raise HarnessError(f'{kind} on {obj} would block outside the simulator')
+
+    def rec(self, *a, **k):
+        pass
+
+    def schedule(self, *a, **k):
+        pass
+
+    def me(self):
+        return self._me
+
+    def in_sim_thread(self):
+        return False
+
+    def new_obj_name(self, cls, depth=2):
+        return cls + '?'
+
+
+_NULL = _NullSim()
+
+
 def _sim():
     s = current_sim()
-    if s is None or not s.active:
-        raise HarnessError('simulated primitive used with no active simulator')
+    if s is None or not s.active or not s.in_sim_thread():
+        return _NULL
     return s
 
 
@@ -504,9 +544,16 @@ class SimSimpleQueue(SimQueue):
 
 
 def _brief(x):
+    """Deterministic short description of a queue item for the event log: strings as they are,
+    plain values by repr, anything else by type name only (a default repr carries a memory
+    address, which differs from process to process and would break the digest)."""
     if isinstance(x, str):
         return x if len(x) <= 80 else x[:77] + '...'
-    return repr(x)[:80]
+    if x is None or isinstance(x, (int, float, bool, bytes)):
+        return repr(x)[:80]
+    if isinstance(x, (tuple, list)) and len(x) <= 6:
+        return type(x).__name__ + '(' + ','.join(_brief(y) for y in x) + ')'
+    return '<' + type(x).__name__ + '>'
 
 
 # ---------------------------------------------------------------------------------------------
@@ -598,6 +645,20 @@ def patch_thread_class():
     T.start = start
     T.join = join
     T.is_alive = is_alive
+
+    # Thread objects hash by address by default, so the iteration order of a set of threads (e.g.
+    # ThreadPoolExecutor._threads, joined one by one in shutdown()) differs from process to
+    # process and with it the order of yield points.  Hash by first-use sequence number instead
+    # (equality stays identity).
+    seq = [0]
+
+    def thread_hash(self):
+        h = self.__dict__.get('_sim_hash')
+        if h is None:
+            seq[0] += 1
+            h = self.__dict__['_sim_hash'] = seq[0]
+        return h
+    T.__hash__ = thread_hash
 
 
 class SimRandom:
